@@ -138,6 +138,7 @@ impl IdMap {
         mut labels: Vec<LabelId>,
         internal_id: InternalNodeId,
     ) -> Result<()> {
+        let _vo = vowner!("idmap");
         let expected = self.next_internal_id();
         if internal_id != expected {
             return Err(Error::WalProtocol("non-dense internal id"));
@@ -194,6 +195,7 @@ impl IdMap {
         internal_id: InternalNodeId,
         label: LabelId,
     ) -> Result<()> {
+        let _vo = vowner!("idmap");
         let labels = self
             .i2l
             .get_mut(internal_id as usize)
@@ -213,6 +215,7 @@ impl IdMap {
         internal_id: InternalNodeId,
         label: LabelId,
     ) -> Result<()> {
+        let _vo = vowner!("idmap");
         let labels = self
             .i2l
             .get_mut(internal_id as usize)
